@@ -12,7 +12,9 @@ bash on the same command lines: the same lines are matched (exit status), every 
 script does, and every candidate of the `|` script that the `||` script does not offer is one that the
 extracted Spec/Undercut.v lists as undercut by a strictly earlier level (Props/C09c.v proves exactly
 this at the level of the specification and, through C01, of the script).  A difference is attributed to the mechanism Part 1 found in either automaton (or to
-the same-text mechanism inside a within-word automaton); anything else is a violation."""
+the same-text mechanism inside a within-word automaton) only on a command line that meets the ambiguity -- a complete word
+read by two different items, the cursor at a point with two such items, or a within-word expression with two readings of a
+piece: the extracted Spec/TwoReadings.v on either validated tree; anything else is a violation."""
 import os
 import time
 from concurrent.futures import ThreadPoolExecutor
@@ -37,7 +39,8 @@ MANIFEST = dict(
           'automaton of every generated grammar (biased to || branches and call variants starting with the same literal, within-word '
           'expressions repeated with permuted alternatives or through definitions), and the || script against the | script in real '
           'bash (same matched lines, candidates monotone in both directions with the undercut exception computed by the extracted '
-          'specification). Props/C09b.v, on the automata Driver.compile_valid builds: '
+          'specification; a difference counts as an instance of a known class only on a command line that meets the ambiguity, '
+          'decided per line by the extracted Spec/TwoReadings.v). Props/C09b.v, on the automata Driver.compile_valid builds: '
           'C09_fallback_transparent_compiled (the automaton of a grammar and of its | variant accept the same item words up to levels and '
           'descriptions, match the same typed command lines and expect the same items after them; outside the known mechanisms the walk is '
           'unique) and C09_unambiguous_compiled (grammar side: two readings of the same typed words have the same continuations); '
@@ -259,6 +262,11 @@ def undercut_request(expr_text, outs, wb, queries):
     return 'undercut %s %s %s %s' % (expr_text, sexp.quote(wb), mspec.env_sx(outs), mspec.q_sx(queries))
 
 
+def tworeadings_request(expr_text, outs, wb, queries):
+    """Spec/TwoReadings.v (extracted): per query, 1 iff the line meets a point where a typed word has two readings"""
+    return 'tworeadings %s %s %s %s' % (expr_text, sexp.quote(wb), mspec.env_sx(outs), mspec.q_sx(queries))
+
+
 def run(ctx, res):
     with build.Lock():
         exe = build.harness()
@@ -275,7 +283,8 @@ def run(ctx, res):
     t0 = time.time()
     counters = dict(grammars=0, rejected=0, decided_none=0, decided_some=0, model_error=0, bash_grammars=0, bash_pairs=0,
                     skipped_c01_mechanism=0, skipped_ambiguous=0, unreferenced_subdfa=0, bar_variant_rejected=0,
-                    bar_candidates_judged=0, bar_candidates_undercut=0, undercut_skipped_greedy_shadow=0, spec_monotone_checked=0)
+                    bar_candidates_judged=0, bar_candidates_undercut=0, undercut_skipped_greedy_shadow=0, spec_monotone_checked=0,
+                    differences_on_a_line_meeting_the_ambiguity=0, differences_off_the_ambiguity=0, lines_meeting_two_readings=0)
     found = {CLASS_LL: 0, CLASS_SS: 0, CLASS_LS: 0}
     # ---- Part 1: the decision on Rust's automaton
     witnesses = [
@@ -454,6 +463,10 @@ def run(ctx, res):
         # the exception of the second half, computed by the extracted specification on the || grammar's validated tree
         ul = model.run([undercut_request(e[0], cases[p[0]][1].outs, mspec.DEFAULT_WB, q) for p, e, q in zip(prep, exprs, queries)])
 
+        # which lines meet an ambiguity at all (either tree): only there can a known class of C09 explain a difference
+        tl = model.run([tworeadings_request(e[k], cases[p[0]][1].outs, mspec.DEFAULT_WB, q)
+                        for p, e, q in zip(prep, exprs, queries) for k in (0, 1)])
+
         def work(j):
             (i, bt, a, b), q = j
             r1, _ = bashrun.run_queries(str(sexp.parse(a['SCRIPT'])), q, timeout=600)
@@ -467,6 +480,8 @@ def run(ctx, res):
             f2 = mspec.parse_meaning(fl[2 * n + 1]) if not fl[2 * n + 1].startswith('(drivererror') else None
             w2 = sexp.parse(amb2[n]) if not amb2[n].startswith('(drivererror') else ['none']
             und = None if ul[n].startswith('(drivererror') else [set(str(c) for c in r) for r in sexp.parse(ul[n])]
+            t1 = None if tl[2 * n].startswith('(drivererror') else [str(x) == '1' for x in sexp.parse(tl[2 * n])]
+            t2 = None if tl[2 * n + 1].startswith('(drivererror') else [str(x) == '1' for x in sexp.parse(tl[2 * n + 1])]
             cls = verdict[i]
             if cls is None and w2[0] == 'some':
                 cls = witness_class(sexp.parse(b['MIN'])[1], w2, bt.decode('latin-1'))
@@ -484,6 +499,8 @@ def run(ctx, res):
                     continue
                 if ws or pre:
                     pairs_nontrivial += 1
+                if (t1 is not None and t1[k]) or (t2 is not None and t2[k]):
+                    counters['lines_meeting_two_readings'] += 1
                 why = ''
                 if x is None or y is None:
                     why = 'bash produced no answer'
@@ -516,7 +533,14 @@ def run(ctx, res):
                 # the known mechanisms (two readings of one word in one of the two automata) explain a different matched set or
                 # different candidates, nothing else: no answer from bash or a contradicted theorem is never a known instance
                 explained = not (why.startswith('bash produced no answer') or why.startswith('specification-level'))
-                res.violations.append(report.Violation('C09: ' + why, replay, cls=cls if explained else None))
+                # ... and only on a line that meets the ambiguity: a complete word read by two different items, the cursor at a
+                # point with two such items, or a within-word expression with two readings of a piece (Spec/TwoReadings.v on
+                # either validated tree).  A grammar that contains an ambiguity elsewhere explains nothing.
+                touched = t1 is not None and t2 is not None and (t1[k] or t2[k])
+                if cls is not None and explained:
+                    counters['differences_on_a_line_meeting_the_ambiguity' if touched else 'differences_off_the_ambiguity'] += 1
+                    replay['meets_two_readings'] = bool(touched)
+                res.violations.append(report.Violation('C09: ' + why, replay, cls=cls if explained and touched else None))
         longest = max(longest, time.time() - tc)
     res.nontrivial = nontrivial + pairs_nontrivial
     res.rule = ('evaluations = automata decided by the extracted Ambig.find (Rust\'s minimised automaton of a generated grammar) + '
